@@ -108,7 +108,10 @@ func fkGrid(full bool) []fkCase {
 		more := append(clone(l), FK{Cols: []string{"note"}, RefTable: "q", RefCols: []string{"id"}, OnUpdate: "CASCADE"})
 		add("more", more, nil)
 		add("rebuild", clone(l), func(s *Schema) { s.table("t").col("note").Null = false; s.table("t").col("note").Def = &Def{V: "x"} })
-		add("alter", clone(l), func(s *Schema) { t := s.table("t"); t.Cols = append(t.Cols, Col{Name: "extra", Type: "int", Null: true}) })
+		add("alter", clone(l), func(s *Schema) {
+			t := s.table("t")
+			t.Cols = append(t.Cols, Col{Name: "extra", Type: "int", Null: true})
+		})
 		for i := range l {
 			if l[i].Symbol != "" {
 				ren := clone(l)
